@@ -12,6 +12,7 @@ import (
 	"verifharness/core"
 	_ "verifharness/fam/ast"
 	_ "verifharness/fam/conc"
+	_ "verifharness/fam/determ"
 	_ "verifharness/fam/enums"
 	_ "verifharness/fam/ident"
 	_ "verifharness/fam/indent"
